@@ -614,12 +614,16 @@ class LoaderBase(ABC):
             **align_kwargs,
         )
 
-        if model.is_multi_templates:
-            task_shape = (model.niter,) + tuple(
-                2 * np.ceil(_max_shifts_px).astype(np.int32) + 1
-            )
-        else:
-            task_shape = tuple(2 * np.ceil(_max_shifts_px).astype(np.int32) + 1)
+        # The shape of a landscape depends on the alignment model (e.g. truncation of
+        # fractional max_shifts, clipping at the box size) and on the up-sampling factor.
+        # Ask the model instead of guessing, so that the lazy array reports the shape
+        # that computing it actually yields.
+        _probe = np.zeros(model.input_shape, dtype=np.float32)
+        _probe[(0,) * _probe.ndim] = 1.0
+        with np.errstate(all="ignore"):
+            task_shape = model.landscape(
+                _probe, _max_shifts_px, upsample=upsample
+            ).shape
         task_arrays = (
             self.replace(output_shape=model.input_shape)
             .iter_mapping_tasks(
